@@ -76,6 +76,19 @@ theorem mprotect_perm {P : Nat} (hP : 0 < P) (k : Kernel) (a len : Nat) (p : Per
     (mprotect P k a len p).brk = k.brk := by
   unfold mprotect; split <;> rfl
 
+@[simp] theorem mprotect_al (P : Nat) (k : Kernel) (a len : Nat) (p : Perm) :
+    (mprotect P k a len p).al = k.al := by
+  unfold mprotect; split <;> rfl
+
+@[simp] theorem mprotect_fr (P : Nat) (k : Kernel) (a len : Nat) (p : Perm) :
+    (mprotect P k a len p).fr = k.fr := by
+  unfold mprotect; split <;> rfl
+
+@[simp] theorem munlockK_al (P : Nat) (k : Kernel) (a len : Nat) : (munlockK P k a len).al = k.al := rfl
+@[simp] theorem munlockK_fr (P : Nat) (k : Kernel) (a len : Nat) : (munlockK P k a len).fr = k.fr := rfl
+@[simp] theorem mlockK_al (P : Nat) (k : Kernel) (a len : Nat) : (mlockK P k a len).1.al = k.al := rfl
+@[simp] theorem mlockK_fr (P : Nat) (k : Kernel) (a len : Nat) : (mlockK P k a len).1.fr = k.fr := rfl
+
 theorem munlockK_locked {P : Nat} (hP : 0 < P) (k : Kernel) (a len : Nat) (i : Nat) :
     (munlockK P k (a * P) len).locked i =
       if a ≤ i ∧ i < a + pagesOf P len then false else k.locked i := by
@@ -95,6 +108,15 @@ theorem mlockK_locked {P : Nat} (hP : 0 < P) (k : Kernel) (a len : Nat) (i : Nat
     (mlockK P k a len).1.perm = k.perm := rfl
 @[simp] theorem mlockK_brk (P : Nat) (k : Kernel) (a len : Nat) :
     (mlockK P k a len).1.brk = k.brk := rfl
+
+@[simp] theorem dryocMprotect_al (c : Cfg) (m : Mach) (a l : Nat) (p : Perm) :
+    (dryocMprotect c m a l p).k.al = m.k.al := by simp [dryocMprotect]
+@[simp] theorem dryocMprotect_fr (c : Cfg) (m : Mach) (a l : Nat) (p : Perm) :
+    (dryocMprotect c m a l p).k.fr = m.k.fr := by simp [dryocMprotect]
+@[simp] theorem dryocMunlock_al (c : Cfg) (m : Mach) (a l : Nat) : (dryocMunlock c m a l).k.al = m.k.al := by
+  unfold dryocMunlock; split <;> simp
+@[simp] theorem dryocMunlock_fr (c : Cfg) (m : Mach) (a l : Nat) : (dryocMunlock c m a l).k.fr = m.k.fr := by
+  unfold dryocMunlock; split <;> simp
 
 theorem anyNone_false_iff (k : Kernel) (lo hi : Nat) :
     anyNone k lo hi = false ↔ ∀ i, lo ≤ i → i < hi → k.perm i ≠ .none := by
